@@ -351,6 +351,7 @@ class CreditLedger(Monitor):
         # client (first Handshake or 1-RTT packet delivered to it), the limits in force for the client
         # are the ones it remembers from the connection that issued the session ticket.
         self.remembered_until = None
+        self.remembered_replaced_exactly = 0
         self.zero_rtt_stream_frames = 0
         if o.get("resume") is not None and getattr(sim, "resumed_with_ticket", False):
             po = dict(o)
@@ -375,6 +376,14 @@ class CreditLedger(Monitor):
 
     def _promote(self, t):
         new, old = self.fresh_client_limits, self.lim["client"]
+        if self.zero_rtt_stream_frames == 0 and not self.highest["client"]:
+            # nothing was sent under the remembered limits: from now on the limits in force are exactly the ones of this
+            # connection's transport parameters, also when they are lower than the remembered ones (a server may lower
+            # its limits between connections; RFC 9000 7.4.1 only forbids it while accepting 0-RTT data)
+            self.lim["client"] = new
+            self.remembered_until = t
+            self.remembered_replaced_exactly += 1
+            return
         for k in ("max_data", "stream_default", "bidi", "uni"):
             old[k] = max(old[k], new[k])
         for k in ("sd_bidi_local", "sd_bidi_remote", "sd_uni"):
@@ -887,9 +896,22 @@ class CloseMonitor(Monitor):
         self.last_rx = {}  # endpoint -> (t, pto)
         self.close_kinds = set()
         self.close_dgram_step = {}
+        self.api_close = {}  # endpoint -> (t, pto) of the application's close() call on a connection that was not closing
+        self.api_close_deadline_checks = 0
 
     def on_deliver(self, ep, rec, from_addr, t, altered=False):
         pass
+
+    def on_app(self, ep, op, t, outcome):
+        # The application called close(); the driver lets the connection transmit at this very instant, which is when
+        # the closing period starts — whether or not a closing packet can leave (an endpoint at its anti-amplification
+        # limit has nothing it may send).
+        if op.get("op") == "close" and ep.name not in self.api_close and ep.name not in self.t0 and not ep.terminated:
+            try:
+                if ep.conn._close_pending and ep.conn._state.name not in ("CLOSING", "DRAINING", "TERMINATED"):
+                    self.api_close[ep.name] = (t, ref_pto(ep.conn))
+            except Exception:
+                pass
 
     def after_deliver(self, ep, rec, from_addr, t, altered=False):
         if altered or ep.terminated:
@@ -950,6 +972,13 @@ class CloseMonitor(Monitor):
                 self.deadline_checks += 1
                 if t > t0 + 3 * pto0 + 1e-6 + self._spin_slack(ep):
                     raise Violation("close:termination-later-than-3-pto", "%s began %s at t=%.4f with PTO %.4f but reported termination at t=%.4f (> t0+3*PTO=%.4f)" % (ep.name, kind, t0, pto0, t, t0 + 3 * pto0), None)
+            elif st is None and self.on_time and ep.name in self.api_close and ev.reason_phrase != "Idle timeout":
+                # no closing packet was ever seen on the wire, yet the application had closed: same deadline, counted
+                # from the close() call
+                t0, pto0 = self.api_close[ep.name]
+                self.api_close_deadline_checks += 1
+                if t > t0 + 3 * pto0 + 1e-6 + self._spin_slack(ep):
+                    raise Violation("close:termination-later-than-3-pto:no-closing-packet", "%s: close() was called at t=%.4f with PTO %.4f, no closing packet left, termination reported at t=%.4f (> t0+3*PTO=%.4f)" % (ep.name, t0, pto0, t, t0 + 3 * pto0), None)
             elif st is None and self.on_time:
                 # idle timeout (or version negotiation failure): must not be later than the idle deadline
                 lr = self.last_rx.get(ep.name)
